@@ -262,6 +262,7 @@ static int rv_pair(const struct rvbuf *b, struct rvcur *c)
  * typed; wtop / wrows: window (for H M L).  Returns 0 when the cursor position is defined by the
  * reference (c updated), 1 when the motion fails (cursor stays).
  */
+static int rv_raw;	/* operator context: the target is not clamped onto a character ($, space and word motions may reach the newline) */
 static int rv_motion(const struct rvbuf *b, struct rvcur *c, int key, unsigned arg, int cnt, int wtop, int wrows)
 {
 	int n = cnt ? cnt : 1, i;
@@ -277,8 +278,16 @@ static int rv_motion(const struct rvbuf *b, struct rvcur *c, int key, unsigned a
 		c->o = c->o - n < 0 ? 0 : c->o - n;
 		break;
 	case 'l':
-	case ' ':
 		c->o = c->o + n > rv_last(b, c->r) ? rv_last(b, c->r) : c->o + n;
+		break;
+	case ' ':
+		if (rv_raw)
+			c->o = c->o + n > b->len[c->r] ? b->len[c->r] : c->o + n;
+		else
+			c->o = c->o + n > rv_last(b, c->r) ? rv_last(b, c->r) : c->o + n;
+		break;
+	case 8:		/* ^H: one character back, in logical order */
+		c->o = c->o - n < 0 ? 0 : c->o - n;
 		break;
 	case 'j':
 	case 'k':
@@ -295,10 +304,12 @@ static int rv_motion(const struct rvbuf *b, struct rvcur *c, int key, unsigned a
 		c->o = rv_firstnb(b, c->r);
 		break;
 	case '$':
-		c->o = rv_last(b, c->r);
+		c->o = rv_raw ? b->len[c->r] : rv_last(b, c->r);
 		break;
 	case '|':
 		c->o = rv_off_at(b, c->r, n - 1);
+		if (rv_raw && n - 1 >= rv_col(b, c->r, b->len[c->r]))
+			c->o = b->len[c->r];	/* a column past the text: the newline position */
 		c->xcol = n - 1;
 		keepcol = 1;
 		break;
@@ -398,7 +409,8 @@ static int rv_motion(const struct rvbuf *b, struct rvcur *c, int key, unsigned a
 		if (c->r >= b->n) c->r = b->n - 1;
 		c->o = rv_firstnb(b, c->r);
 	}
-	rv_clamp(b, c);
+	if (!rv_raw)
+		rv_clamp(b, c);
 	if (!keepcol)
 		c->xcol = rv_col(b, c->r, c->o);
 	return 0;
